@@ -155,6 +155,23 @@ func rulesC20(p *Prog, r *Report) {
 	r.Rule("R20.2", "GenesisState fields: filled by export <=> read by import", 80)
 	r.Rule("R20.3", "bulk readers used by export decode what they append", 60)
 
+	r.Rule("R20.5", "a genesis id-counter field is restored through the setter of the same kind", 2)
+	r.Rule("R20.6", "modules whose InitGenesis reads another module's state are initialised after it", 2)
+	initOrder := p.initGenesisOrder()
+	orderIdx := map[string]int{}
+	for i, n := range initOrder {
+		orderIdx[n] = i
+	}
+	r.Info["init_genesis_order"] = initOrder
+	modName := map[string]string{}
+	for _, m := range modNames {
+		if pk := p.ByPath[modPath+"/x/"+m+"/types"]; pk != nil {
+			if c, ok := pk.Types.Scope().Lookup("ModuleName").(*types.Const); ok {
+				modName[m] = strings.Trim(c.Val().ExactString(), "\"")
+			}
+		}
+	}
+
 	stop := func(f *ssa.Function) bool { return p.isAuxFn(f) }
 	for _, m := range modNames {
 		mg := mods[m]
@@ -218,6 +235,124 @@ func rulesC20(p *Prog, r *Report) {
 				r.Fail("R20.1", construct, fmt.Sprintf("state under this prefix (written by %s) is read by ExportGenesis but never written by InitGenesis: it is dropped on import", strings.Join(writers, ", ")), p.pos(g.Pos()), nil)
 			default:
 				r.Fail("R20.1", construct, fmt.Sprintf("state under this prefix (written by %s) is neither exported nor re-derived at import: it does not survive a genesis round trip", strings.Join(writers, ", ")), p.pos(g.Pos()), nil)
+			}
+		}
+
+		// R20.5 counter fields restored through the setter of the same kind
+		for fn := range initReach {
+			if moduleOf(fn) != m {
+				continue
+			}
+			for _, c := range calls(fn) {
+				ts := p.Callees(c)
+				if len(ts) == 0 || !isComdexFn(ts[0]) || !strings.HasPrefix(ts[0].Name(), "Set") {
+					continue
+				}
+				if !isIDName(ts[0].Name()) {
+					continue // only id-counter setters (Set...ID)
+				}
+				norm := func(toks []string) map[string]bool {
+					out := map[string]bool{}
+					for _, t := range toks {
+						switch t {
+						case "id", "ids", "gen", "last", "set", "for", "of":
+							continue
+						case "bidding":
+							t = "bid"
+						}
+						out[t] = true
+					}
+					return out
+				}
+				ck := norm(camelTokens(strings.TrimPrefix(ts[0].Name(), "Set")))
+				if len(ck) == 0 {
+					continue
+				}
+				cargs := callArgs(c)
+				lastU := -1
+				for i, a := range cargs {
+					if isUint64(a.Type()) {
+						lastU = i
+					}
+				}
+				for i, a := range cargs {
+					if i != lastU {
+						continue // the value being restored is the setter's last uint64 argument; earlier ones are keys
+					}
+					for _, o := range p.Origins(a) {
+						if len(o.Path) == 0 {
+							continue
+						}
+						last := o.Path[len(o.Path)-1]
+						// only counters read from the genesis document (LastPairId, AuctionId ...)
+						isGen := false
+						sub := o
+						for i := range o.Path {
+							sub.Path = o.Path[:i+1]
+							if tn := pathBaseTypeName(sub); tn == "GenesisState" || tn == "AppGenesisState" {
+								isGen = true
+							}
+						}
+						fk := norm(camelTokens(last))
+						if !isGen || len(fk) == 0 || !isIDName(last) {
+							continue
+						}
+						r.Instance("R20.5")
+						construct := fmt.Sprintf("module %s %s <- GenesisState.%s", m, ts[0].Name(), last)
+						subset := true
+						for t := range fk {
+							if !ck[t] {
+								subset = false
+							}
+						}
+						if subset {
+							r.OK("R20.5", construct, "counter restored through the setter of its own kind", p.instrPos(c))
+						} else {
+							r.Fail("R20.5", construct, fmt.Sprintf("the id counter set by %s is restored from the genesis field %s, which names a different counter: after import newly assigned ids collide with imported records", ts[0].Name(), last), p.instrPos(c), nil)
+						}
+					}
+				}
+			}
+		}
+
+		// R20.6 init order
+		if mn := modName[m]; mn != "" {
+			deps := map[string]string{}
+			for fn := range initReach {
+				dm := moduleOf(fn)
+				if dm == "" || dm == m || !strings.Contains(fnPkgPath(fn), "/keeper") {
+					continue
+				}
+				for _, so := range p.storeOpsOf(fn) {
+					if so.op == "Get" || so.op == "Has" || so.op == "Iterator" {
+						if _, ok := deps[dm]; !ok {
+							deps[dm] = fname(fn)
+						}
+					}
+				}
+			}
+			var ds []string
+			for d := range deps {
+				ds = append(ds, d)
+			}
+			sort.Strings(ds)
+			for _, d := range ds {
+				dn := modName[d]
+				if dn == "" {
+					continue
+				}
+				r.Instance("R20.6")
+				construct := fmt.Sprintf("InitGenesis order: %s after %s", m, d)
+				im, ok1 := orderIdx[mn]
+				id, ok2 := orderIdx[dn]
+				switch {
+				case !ok1 || !ok2:
+					r.Fail("R20.6", construct, "module missing from SetOrderInitGenesis", p.pos(mg.init[0].Pos()), nil)
+				case id < im:
+					r.OK("R20.6", construct, "state read via "+deps[d]+" is initialised earlier", "")
+				default:
+					r.Fail("R20.6", construct, fmt.Sprintf("%s.InitGenesis reads %s state (via %s) but %s is initialised later in SetOrderInitGenesis: lookups fail and the import silently drops records", m, d, deps[d], d), p.pos(mg.init[0].Pos()), nil)
+				}
 			}
 		}
 
@@ -433,4 +568,60 @@ func (p *Prog) decodedElement(arg ssa.Value, l *Loop) bool {
 	}
 	rec(arg, 0)
 	return ok
+}
+
+// initGenesisOrder extracts the module names passed to (*module.Manager).SetOrderInitGenesis in app/.
+func (p *Prog) initGenesisOrder() []string {
+	var out []string
+	for _, fn := range p.Funcs {
+		if !strings.HasPrefix(fname(fn), "app.") {
+			continue
+		}
+		for _, c := range calls(fn) {
+			sc := c.Common().StaticCallee()
+			if sc == nil || sc.Name() != "SetOrderInitGenesis" {
+				continue
+			}
+			args := c.Common().Args
+			if len(args) < 2 {
+				continue
+			}
+			sl, ok := args[len(args)-1].(*ssa.Slice)
+			if !ok {
+				continue
+			}
+			arr, ok := sl.X.(*ssa.Alloc)
+			if !ok {
+				continue
+			}
+			type ent struct {
+				idx int64
+				val string
+			}
+			var ents []ent
+			for _, ref := range *arr.Referrers() {
+				ia, ok := ref.(*ssa.IndexAddr)
+				if !ok || ia.Referrers() == nil {
+					continue
+				}
+				ic, ok := ia.Index.(*ssa.Const)
+				if !ok {
+					continue
+				}
+				for _, r2 := range *ia.Referrers() {
+					if st, ok := r2.(*ssa.Store); ok {
+						if s, isS := constString(st.Val); isS {
+							ents = append(ents, ent{ic.Int64(), s})
+						}
+					}
+				}
+			}
+			sort.Slice(ents, func(i, j int) bool { return ents[i].idx < ents[j].idx })
+			for _, e := range ents {
+				out = append(out, e.val)
+			}
+			return out
+		}
+	}
+	return out
 }
